@@ -140,9 +140,36 @@ func instance(t *rapid.T, pat string) string {
 	return b.String()
 }
 
+// drawBytes builds a string over '*', '\\' and three arbitrary byte values (any of 0..255: strings are byte
+// strings to Like and to Match; a matcher that reserves some byte value for its own bookkeeping is wrong for
+// patterns or subjects that contain it).
+func drawBytes(t *rapid.T, alpha []byte, label string) string {
+	n := rapid.IntRange(0, 7).Draw(t, label+"_n")
+	b := make([]byte, 0, n)
+	for i := 0; i < n; i++ {
+		b = append(b, rapid.SampledFrom(alpha).Draw(t, label))
+	}
+	return string(b)
+}
+
 func draw(t *rapid.T) Case {
 	var cs Case
-	switch rapid.IntRange(0, 9).Draw(t, "mode") {
+	switch rapid.IntRange(0, 11).Draw(t, "mode") {
+	case 10, 11:
+		alpha := []byte{'*', '\\', '*', rapid.Byte().Draw(t, "b1"), rapid.Byte().Draw(t, "b2"),
+			rapid.SampledFrom([]byte{0x00, 0x01, 0x7f, 0x80, 0xfe, 0xff, 0xc3, 0xa9}).Draw(t, "b3")}
+		cs.Pat = drawBytes(t, alpha, "bpat")
+		if rapid.Bool().Draw(t, "binst") {
+			cs.Str = instance(t, cs.Pat)
+			if len(cs.Str) > 0 && rapid.IntRange(0, 2).Draw(t, "bperturb") == 0 {
+				i := rapid.IntRange(0, len(cs.Str)-1).Draw(t, "bcut")
+				bs := []byte(cs.Str)
+				bs[i] = rapid.SampledFrom(alpha).Draw(t, "bsub")
+				cs.Str = string(bs)
+			}
+		} else {
+			cs.Str = drawBytes(t, alpha, "bstr")
+		}
 	case 0:
 		cs.Pat = rapid.StringN(0, 10, -1).Draw(t, "rpat")
 		cs.Str = rapid.StringN(0, 10, -1).Draw(t, "rstr")
@@ -173,6 +200,26 @@ func draw(t *rapid.T) Case {
 var prop = h.Define(P, "glob", draw, run)
 
 func TestGlob(t *testing.T) { prop.Check(t) }
+
+// TestGlobByteSweep: for EVERY byte value b, a fixed family of patterns and subjects in which b occurs as a
+// literal, escaped, next to a wildcard, and opposite another byte value.
+func TestGlobByteSweep(t *testing.T) {
+	for v := 0; v < 256; v++ {
+		b := string([]byte{byte(v)})
+		o := string([]byte{byte(v ^ 1)})
+		if b == "*" || b == "\\" {
+			continue
+		}
+		pats := []string{b, "a" + b + "c", "\\" + b, "*" + b, b + "*", "a*" + b + "*c", b + b, "\\" + b + "*" + b, "*\\" + b + "\\*"}
+		subs := []string{"", b, o, "a" + b + "c", "a" + o + "c", "ac", "a" + b + b + "c", "axyz" + b + "zyxc", "axyz" + o + "zyxc", b + b, b + o, o + b, b + "*", "abc", "x" + b, b + "x"}
+		for _, p := range pats {
+			for _, s := range subs {
+				prop.One(t, Case{Pat: p, Str: s})
+			}
+		}
+	}
+	P.Sample(map[string]any{"byte_sweep": "every byte value 0..255 as literal / escaped / next to a wildcard", "patterns_per_byte": 9, "subjects_per_pattern": 16})
+}
 
 // TestGlobLongRuns: a wildcard followed by a long literal run against long,
 // self-overlapping strings (the expensive case of any backtracking matcher):
